@@ -88,31 +88,30 @@ def get_repo():
         os.replace(tmp, out)
     from . import canon
     data0 = json.load(open(out))
-    n_loops = canon.desugar_loops(data0)  # for_each / try_for_each statements read as `for` loops
-    canon.expand_self(data0)  # `Self { .. }` / `Self::V` spelled as the type
-    canon.inline_local_closures(data0)  # calls of locally named closures read as the closure's body in place
-    if os.path.exists(canon.TABLE):
-        canon.expand_new_aliases(data0, set(json.load(open(canon.TABLE)).get("__aliases__", [])))  # type aliases added since the reference tree
-    _repo = ast.Repo(out, REPO, _data=data0)
-    # private types that were merely renamed (same module, same fields) are read under their reference names, like functions below
-    type_renames = {}
-    if os.path.exists(canon.TABLE):
-        types = json.load(open(canon.TABLE)).get("__types__", {})
-        type_renames = canon.compute_type_renames(_repo, types)
-        if type_renames:
-            canon.apply_type_renames(data0, type_renames)
-            _repo = ast.Repo(out, REPO, _data=data0)
-    _repo.desugared_loops = n_loops
-    # functions that were merely renamed are read under their reference names (vlib/canon.py)
-    from . import canon
-    renames, log = canon.compute_renames(_repo)
-    if renames:
-        data = _repo._data
-        canon.apply_to_ast(data, renames)
-        _repo = ast.Repo(out, REPO, _data=data)
-        _repo.renames, _repo.rename_log = renames, log
+    ref = json.load(open(canon.TABLE)) if os.path.exists(canon.TABLE) else {}
+    # 1. spelling: for_each / try_for_each statements read as `for` loops, `Self { .. }` / `Self::V` as the type, aliases added since the
+    #    reference tree as what they stand for
+    n_loops = canon.desugar_loops(data0)
+    canon.expand_self(data0)
+    if ref:
+        canon.expand_new_aliases(data0, set(ref.get("__aliases__", [])))
+    # 2. names: private types and functions that were merely renamed are read under their reference names (vlib/canon.py)
+    r1 = ast.Repo(out, REPO, _data=data0)
+    type_renames = canon.compute_type_renames(r1, ref.get("__types__", {})) if ref else {}
     if type_renames:
-        _repo.renames = dict(_repo.renames, **type_renames)  # the MIR facts are read with both kinds of names mapped back
+        canon.apply_type_renames(data0, type_renames)
+        r1 = ast.Repo(out, REPO, _data=data0)
+    renames, log = canon.compute_renames(r1)
+    if renames:
+        canon.apply_to_ast(data0, renames)
+    # 3. structure: helpers extracted since the reference tree (still unknown after step 2) are read in place; calls of locally named
+    #    closures as the closure's body
+    inlined = canon.inline_new_helpers(data0, {k for k in ref if not k.startswith("__")}) if ref else []
+    canon.inline_local_closures(data0)
+    _repo = ast.Repo(out, REPO, _data=data0)
+    _repo.desugared_loops = n_loops
+    _repo.inlined_helpers = inlined
+    _repo.renames, _repo.rename_log = dict(renames, **type_renames), log  # the MIR facts are read with both kinds of names mapped back
     return _repo
 
 
